@@ -7,7 +7,11 @@
 //! * **mode** — how the one value is used: `same` (the value itself, `ready().call()` again and
 //!   again), `clones` (a fresh clone for every other request), `clone-used` (cloned after its
 //!   first use, then both in turn), `oneshot-each`, `conc` (all calls made before the first answer
-//!   is awaited, answers awaited in reverse order); or served by a real `transport::Server` over
+//!   is awaited, answers awaited in reverse order), `grow` / `grow-builder` (reconfigured after use:
+//!   the first half of the services is registered, the router answers all the requests, a clone
+//!   of it is kept, then the other half is added with `Routes::add_service` /
+//!   `RoutesBuilder::from(routes).add_service` and the requests are asked again — the answers
+//!   reported are those of the second round); or served by a real `transport::Server` over
 //!   HTTP/2 on a duplex pipe: `srv` (one connection, sequential streams), `srv-conc` (concurrent
 //!   streams), `srv-2conn` (one connection per request), `srv-direct`
 //!   (`Server::serve_with_incoming(routes, …)` without a `Router`), and the server's own knobs and
@@ -142,7 +146,7 @@ pub fn seq_line(mode: &str, ctor: &str, reg: &[usize], reqs: &[Req3]) -> String 
     s
 }
 
-const MODES_LOCAL: [&str; 5] = ["same", "clones", "clone-used", "oneshot-each", "conc"];
+const MODES_LOCAL: [&str; 7] = ["same", "clones", "clone-used", "oneshot-each", "conc", "grow", "grow-builder"];
 const MODES_SRV: [&str; 14] = [
     "srv", "srv-conc", "srv-2conn", "srv-direct", "srv-trace", "srv-timeout", "srv-climit", "srv-knobs", "srv-icept", "srv-icept-fresh",
     "srv-icept-uri", "srv-stack", "srv-web", "srv-h1",
@@ -152,7 +156,7 @@ const CTORS: [&str; 13] = [
     "probe", "icept", "layer", "both", "icept-fresh", "icept-clear", "icept-uri", "icept-meta", "with-icept", "with-icept-fresh", "from-arc",
     "configured", "cloned",
 ];
-const FLAVORS: [&str; 14] = ["POST", "POST", "POST", "POST", "GET", "PUT", "OPTIONS", "v11", "ct-proto", "ct-json", "ct-none", "hdr", "auth", "no-te"];
+const FLAVORS: [&str; 19] = ["POST", "POST", "POST", "POST", "GET", "PUT", "OPTIONS", "HEAD", "DELETE", "PATCH", "TRACE", "CONNECT", "v11", "ct-proto", "ct-json", "ct-none", "hdr", "auth", "no-te"];
 
 /// does `http::Uri` take the target and split it so that `path()` is the path under test?
 fn uri_ok(path: &[u8], query: Option<&[u8]>) -> bool {
@@ -409,7 +413,10 @@ fn build_req(flavor: &str, absolute: bool, h1: bool, idx: usize, path: &[u8], qu
         return Err("uri-path-differs".into());
     }
     let method = match flavor {
-        "GET" | "PUT" | "OPTIONS" | "DELETE" | "PATCH" => http::Method::from_bytes(flavor.as_bytes()).unwrap(),
+        // (through a real HTTP client a HEAD answer has no body or trailers to read and CONNECT
+        // takes no request body: in-process only)
+        "HEAD" | "CONNECT" if absolute || h1 => http::Method::POST,
+        "GET" | "PUT" | "OPTIONS" | "DELETE" | "PATCH" | "HEAD" | "TRACE" | "CONNECT" => http::Method::from_bytes(flavor.as_bytes()).unwrap(),
         _ => http::Method::POST,
     };
     let version = if h1 || (flavor == "v11" && !absolute) { http::Version::HTTP_11 } else { http::Version::HTTP_2 };
@@ -684,13 +691,15 @@ pub fn execute(case: &str) -> String {
         Some(r) => r,
         None => return "bad-case".into(),
     };
-    for &g in &p.reg {
+    let first_round = if p.mode.starts_with("grow") { p.reg.len() / 2 } else { p.reg.len() };
+    for &g in &p.reg[..first_round] {
         if register(&mut reg, g, &p.ctor, &h).is_none() {
             return "bad-case".into();
         }
     }
-    let Built::Routes(routes) = reg.finish() else { return "bad-case".into() };
+    let Built::Routes(mut routes) = reg.finish() else { return "bad-case".into() };
     let server = p.mode.starts_with("srv");
+    let grow = p.mode.starts_with("grow");
     let mut reqs = Vec::new();
     for (k, (f, path, q)) in p.reqs.iter().enumerate() {
         match build_req(f, server && p.mode != "srv-h1", p.mode == "srv-h1", k, path, q.as_deref()) {
@@ -699,7 +708,32 @@ pub fn execute(case: &str) -> String {
         }
     }
     let rt = tokio::runtime::Builder::new_current_thread().enable_all().build().unwrap();
-    let mode = p.mode.clone();
+    let mut kept: Option<tonic::service::Routes> = None;
+    if grow {
+        // round one on the half-built router (answers not reported), then reconfigure it
+        let mut round1 = Vec::new();
+        for (k, (f, path, q)) in p.reqs.iter().enumerate() {
+            match build_req(f, false, false, k, path, q.as_deref()) {
+                Ok(r) => round1.push(r),
+                Err(e) => return e,
+            }
+        }
+        kept = Some(routes.clone());
+        let r1 = routes.clone();
+        let _ = rt.block_on(run_local("same", r1, round1));
+        h.rec.lock().unwrap().clear();
+        let mut reg = if p.mode == "grow-builder" { Reg::Builder(tonic::service::RoutesBuilder::from(routes)) } else { Reg::Routes(Some(routes)) };
+        for &g in &p.reg[first_round..] {
+            if register(&mut reg, g, &p.ctor, &h).is_none() {
+                return "bad-case".into();
+            }
+        }
+        routes = match reg.finish() {
+            Built::Routes(r) => r,
+            _ => return "bad-case".into(),
+        };
+    }
+    let mode = if grow { "same".to_string() } else { p.mode.clone() };
     let recs = rt.block_on(async move {
         if server {
             run_server(&mode, routes, reqs).await
@@ -713,6 +747,7 @@ pub fn execute(case: &str) -> String {
         Ok(r) => r,
         Err(e) => return e,
     };
+    drop(kept);
     // the handlers' own record must tell the same story as the response messages
     let mut hits: Vec<(usize, usize, usize)> = h
         .events()
